@@ -966,6 +966,9 @@ func (e *Engine) verifyFunc(key string) (c *Ctx, err error) {
 		al := c.heapGet(s, "X.alloc", sA1)
 		un := c.heapGet(s, "X.unavail", sA1)
 		s.assume(fmt.Sprintf("(forall ((r Int)) (! (=> (not (= (select %s r) 1)) (= (select %s r) 0)) :pattern ((select %s r))))", al, un, un))
+		// likewise nothing can have retained (kept references into) an array that does not exist yet
+		rt := c.heapGet(s, "X.retained", sA1)
+		s.assume(fmt.Sprintf("(forall ((r Int)) (! (=> (not (= (select %s r) 1)) (= (select %s r) 0)) :pattern ((select %s r))))", al, rt, rt))
 	}
 	c.frameInit()
 	c.smoke(s, "entry", fi.decl.Body.Lbrace)
